@@ -445,7 +445,22 @@ def _far_enough_filter(ctx: Ctx, cls_name: str, helper_name: str, want_filter: s
         conts = [n for n in ast.walk(sl) if isinstance(n, ast.Continue)]
         guards = [n for n in eff_body if isinstance(n, ast.If) and any(r in ast.walk(n) for r in refilters)]
         if early:
-            obs.append(ctx.ob("R09.3", f, early[0], status=VIOLATION, detail=f"{cls_name}: the loop over siblings can stop early: candidates are not compared with every sibling", construct="early-exit"))
+            # leaving the loop once NO candidate is left loses nothing (every remaining comparison would filter an empty list)
+            from ..core import parents_map
+
+            par_ = parents_map(sl)
+            cur_name = refilters[0].targets[0].id if refilters else None
+
+            def harmless(b):
+                q = par_.get(id(b))
+                if not (isinstance(q, ast.If) and b in q.body and len(q.body) == 1 and isinstance(b, ast.Break)):
+                    return False
+                t_ = canon(q.test)
+                return cur_name is not None and t_ in (f"not{cur_name}", f"len({cur_name})==0", f"{cur_name}==[]", f"notlen({cur_name})")
+
+            if not all(harmless(b) for b in early):
+                guarded = all(isinstance(par_.get(id(b)), ast.If) for b in early)
+                obs.append(ctx.ob("R09.3", f, early[0], status=INCONCLUSIVE if guarded and not any(isinstance(b, ast.Return) for b in early) and not any(is_helper_call(x) for b in early for x in ast.walk(par_.get(id(b)).test)) and False else VIOLATION, detail=f"{cls_name}: the loop over siblings can stop early: candidates are not compared with every sibling", construct="early-exit"))
         if conts:
             obs.append(ctx.ob("R09.3", f, conts[0], status=INCONCLUSIVE, detail=f"{cls_name}: some siblings may be skipped in the distance loop", construct="sibling-skip"))
         for gd in guards:
